@@ -73,7 +73,7 @@ def Text_verifyAudience : Prop := text_verifyAudience = expectedText_verifyAudie
 def expectedText_verifyIssuer : List String := ["if tokenIssuer != expectedIssuer { return fmt.Errorf(\"invalid issuer (token: %s, expected: %s)\", tokenIssuer, expectedIssuer) }", "return nil"]
 def Text_verifyIssuer : Prop := text_verifyIssuer = expectedText_verifyIssuer
 
-def expectedText_verifyTimeConstraint : List String := ["claimTime := time.Unix(int64(unixTime), 0)", "now := time.Now()", "var err error", "if future { allowedExpiry := claimTime.Add(ClockSkewToleranceFuture) if now.After(allowedExpiry) { err = fmt.Errorf(\"token has expired (exp: %v, now: %v, allowed_until: %v)\", claimTime.UTC(), now.UTC(), allowedExpiry.UTC()) } } else { allowedStart := claimTime.Add(-ClockSkewTolerancePast) if now.Before(allowedStart) { reason := \"not yet valid\" if claimName == \"iat\" { reason = \"used before issued\" } err = fmt.Errorf(\"token %s (%s: %v, now: %v, allowed_from: %v)\", reason, claimName, claimTime.UTC(), now.UTC(), allowedStart.UTC()) } }", "return err"]
+def expectedText_verifyTimeConstraint : List String := ["claimTime := time.Unix(numericDateSeconds(unixTime), 0)", "now := time.Now()", "var err error", "if future { allowedExpiry := claimTime.Add(ClockSkewToleranceFuture) if now.After(allowedExpiry) { err = fmt.Errorf(\"token has expired (exp: %v, now: %v, allowed_until: %v)\", claimTime.UTC(), now.UTC(), allowedExpiry.UTC()) } } else { allowedStart := claimTime.Add(-ClockSkewTolerancePast) if now.Before(allowedStart) { reason := \"not yet valid\" if claimName == \"iat\" { reason = \"used before issued\" } err = fmt.Errorf(\"token %s (%s: %v, now: %v, allowed_from: %v)\", reason, claimName, claimTime.UTC(), now.UTC(), allowedStart.UTC()) } }", "return err"]
 def Text_verifyTimeConstraint : Prop := text_verifyTimeConstraint = expectedText_verifyTimeConstraint
 
 def expectedText_verifyExpiration : List String := ["return verifyTimeConstraint(expiration, \"exp\", true)"]
